@@ -252,3 +252,42 @@ where
         i += 1;
     }
 }
+
+// scripted `format!` with literal results (see above)
+static mut FMT_S: [&str; 6] = [""; 6];
+static mut FMT_SN: usize = 0;
+static mut FMT_SI: usize = 0;
+pub fn fmt_script_strs(items: &[&'static str]) {
+    unsafe {
+        FMT_SN = items.len();
+        FMT_SI = 0;
+        let mut i = 0;
+        while i < items.len() {
+            FMT_S[i] = items[i];
+            i += 1;
+        }
+    }
+}
+pub fn fmt_scripted_strs(_a: std::fmt::Arguments<'_>) -> String {
+    unsafe {
+        if FMT_SI < FMT_SN {
+            let k = FMT_SI;
+            FMT_SI += 1;
+            String::from(FMT_S[k])
+        } else {
+            String::new()
+        }
+    }
+}
+/// `str::to_lowercase` -> ASCII lower-casing (the only caller formats `MetricType`'s Debug name,
+/// which is ASCII; the Unicode case tables are not the subject)
+pub fn ascii_lowercase_stub(s: &str) -> String {
+    let b = s.as_bytes();
+    let mut v = Vec::with_capacity(16);
+    let mut i = 0;
+    while i < b.len() {
+        v.push(if b[i] >= b'A' && b[i] <= b'Z' { b[i] + 32 } else { b[i] });
+        i += 1;
+    }
+    unsafe { String::from_utf8_unchecked(v) }
+}
